@@ -25,6 +25,7 @@ TYPE_CODES = {
 CODE_TYPES = {v: k for k, v in TYPE_CODES.items()}
 KNOWN_TYPE_CODES = set(range(0, 17))
 DONTCARE = ("reserved", "pad", "strtail")
+ALLOW_FULL_WIDTH = False   # set by the C06 / C13 'full-width field' workloads only
 
 
 class LayoutError(Exception):
@@ -51,6 +52,10 @@ class W:
         b = s.encode("cp1252")
         if b"\x00" in b:
             raise LayoutError("string contains NUL")
+        if len(b) == width and ALLOW_FULL_WIDTH:
+            # foreign writers may fill a field completely (no room for a terminator); readers return it whole
+            self.parts.append(b)
+            return
         if len(b) + 1 > width:
             raise LayoutError("string does not fit its field")
         self.parts.append(b + b"\x00" * (width - len(b)))
